@@ -377,15 +377,34 @@ def check(chk):
     from ..guards import normalise_atom as _na1
     gvp = _CFG1(vp)
 
+    # state: (sign of the argument as tested, names that hold the outcome of `big < 0` taken before big is rewritten, big still the argument?)
+    def _step_s(n, c):
+        sign, holders, orig = c
+        if n.kind == 'stmt' and isinstance(n.ast, (ast.Assign, ast.AugAssign)):
+            tg = n.ast.targets[0] if isinstance(n.ast, ast.Assign) else n.ast.target
+            if isinstance(tg, ast.Name):
+                if tg.id == 'big':
+                    orig = False
+                elif isinstance(n.ast, ast.Assign):
+                    k_, flip_ = _na1(n.ast.value)
+                    holders = tuple(h for h in holders if h[0] != tg.id)
+                    if k_ == 'big < 0' and orig:
+                        holders = holders + ((tg.id, flip_),)
+        return (sign, holders, orig)
+
     def _edge(n, succ, lab, c):
+        sign, holders, orig = c
         if lab is not None and lab[0] in ('T', 'F'):
             k_, flip_ = _na1(lab[1])
-            if k_ == 'big < 0':
-                return 'neg' if ((lab[0] == 'T') != flip_) else 'pos'
-        return c
-    flvp = _Flow1(gvp, 'unknown', lambda n, c: c, edge=_edge)
+            if k_ == 'big < 0' and orig:
+                sign = 'neg' if ((lab[0] == 'T') != flip_) else 'pos'
+            for h, hflip in holders:
+                if k_ == h:
+                    sign = 'neg' if ((lab[0] == 'T') != (flip_ != hflip)) else 'pos'
+        return (sign, holders, orig)
+    flvp = _Flow1(gvp, ('unknown', (), True), _step_s, edge=_edge)
     pad_nodes = [n for n in gvp.stmt_nodes() if n.kind == 'stmt' and any(n.ast is x for st_ in pad_if[0].body for x in ast.walk(st_))]
-    pad_states = set(c for n in pad_nodes for _f, c in flvp.at(n))
+    pad_states = set(c[0] for n in pad_nodes for _f, c in flvp.at(n))
     chk.judge(ru == want_bits, 'C01.signbit', vu, 'varint_unpack: negative iff first byte >= 0x80 (%s)' % src(neg_if[0].test),
               'sign test differs from bit 7 at byte values %s' % [b for b in range(256) if ru[b] != want_bits[b]][:8])
     chk.judge(rp == want_bits and pad_states == set(['pos']), 'C01.signbit', vp,
